@@ -101,3 +101,63 @@ func VT_C15_ListChildren() {
 	vt.Reach("page")
 }
 
+
+var vtMixedNames = []string{"AHU-01", "ahu-02", "B", "a", "c", "Zed"}
+
+// Whole paging walks over names that mix upper and lower case (concrete names, so that the code's own string
+// functions run on them): following next_page_token returns every child exactly once, in the order of the unpaged listing.
+func VT_C15_ListChildrenMixedCase() {
+	n := 3
+	var names []string
+	var opts []resource.Option
+	for i := 0; i < n; i++ {
+		k := vt.Choose(vtK[i]+".name", len(vtMixedNames))
+		name := vtMixedNames[k]
+		for _, o := range names {
+			vt.Assume(o != name)
+		}
+		names = append(names, name)
+		opts = append(opts, resource.WithInitialRecord(name, &traits.Child{Name: name}))
+	}
+	srv := &ModelServer{model: &Model{children: resource.NewCollection(opts...)}}
+	pageSize := int32(1 + vt.Choose("pageSize", 3))
+	var got []string
+	token := ""
+	pages := 0
+	for {
+		resp, err := srv.ListChildren(context.Background(), &traits.ListChildrenRequest{PageSize: pageSize, PageToken: token})
+		vt.Assert(err == nil, "well-formed-request-succeeds")
+		if err != nil {
+			return
+		}
+		pages++
+		vt.Assert(len(resp.Children) <= int(pageSize), "page-no-larger-than-requested")
+		for _, c := range resp.Children {
+			got = append(got, c.Name)
+		}
+		token = resp.NextPageToken
+		if token == "" || pages > n+1 {
+			break
+		}
+	}
+	vt.Assert(token == "", "token-chain-ends")
+	vt.Assert(len(got) == n, "every-child-exactly-once")
+	for _, want := range names {
+		c := 0
+		for _, g := range got {
+			if g == want {
+				c++
+			}
+		}
+		vt.Assert(c == 1, "every-child-exactly-once")
+	}
+	// the listing's order is the order of the unpaged listing
+	full, err := srv.ListChildren(context.Background(), &traits.ListChildrenRequest{PageSize: 1000})
+	vt.Assert(vt.And(err == nil, len(full.GetChildren()) == n), "unpaged-listing-has-every-child")
+	if err == nil && len(full.Children) == n && len(got) == n {
+		for i := range got {
+			vt.Assert(got[i] == full.Children[i].Name, "walk-in-the-listing-order")
+		}
+	}
+	vt.Reach("done")
+}
